@@ -1,3 +1,3 @@
-OPEN "pre.txt" FOR RANDOM AS #2 LEN = 4
-FIELD #2, 4 AS F2$
-KILL "a.txt"
+OPEN "b.txt" FOR OUTPUT AS #2
+PRINT #2, "p" + CHR$(200) + "q"
+KILL "nodir/x.txt"
